@@ -13,8 +13,10 @@ use crate::nb_device::state::verif_nb::{stub_mac_send, stub_mac_join, stub_mac_h
 
 pub(crate) const LOGN: usize = 12;
 /// ghost log of radio + timer calls: kind (1 tx, 2 setup_rx, 3 rx_single, 4 low_power, 5 timer.at, 6 timer.reset) and one argument
-pub(crate) struct CallLog { pub n: usize, pub kind: [u8; LOGN], pub arg: [u64; LOGN], pub tx_calls: u8, pub faults: bool, pub stray: bool }
-pub(crate) static mut CL: CallLog = CallLog { n: 0, kind: [0; LOGN], arg: [0; LOGN], tx_calls: 0, faults: false, stray: false };
+pub(crate) struct CallLog { pub n: usize, pub kind: [u8; LOGN], pub arg: [u64; LOGN], pub tx_calls: u8, pub faults: bool, pub stray: bool,
+    /// frames the radio delivered (rx_single -> Rx): count, and per frame its length, first byte, SNR and the number of setup_rx calls so far (1: RX1, 2: RX2)
+    pub rx_n: usize, pub rx_len: [usize; 4], pub rx_b0: [u8; 4], pub rx_snr: [i8; 4], pub rx_window: [u8; 4], pub setups: u8 }
+pub(crate) static mut CL: CallLog = CallLog { n: 0, kind: [0; LOGN], arg: [0; LOGN], tx_calls: 0, faults: false, stray: false, rx_n: 0, rx_len: [0; 4], rx_b0: [0; 4], rx_snr: [0; 4], rx_window: [0; 4], setups: 0 };
 fn log(kind: u8, arg: u64) { unsafe { if CL.n < LOGN { CL.kind[CL.n] = kind; CL.arg[CL.n] = arg; CL.n += 1; } } }
 fn fault() -> bool { unsafe { CL.faults && tape::stub_u8() & 3 == 0 } }
 
@@ -27,12 +29,19 @@ impl radio::PhyRxTx for ARadio {
     fn setup_rx(&mut self, config: radio::RxConfig) -> Result<(), AErr> {
         // argument logged: RX frequency in the low half, the extra listening time handed to the radio (Single{ms}) in the high half
         let ms = match config.mode { radio::RxMode::Single { ms } => ms as u64, radio::RxMode::Continuous => 0xffff_ffff };
-        log(2, config.rf.frequency as u64 | ms << 32); if fault() { Err(AErr) } else { Ok(()) } }
+        log(2, config.rf.frequency as u64 | ms << 32);
+        unsafe { CL.setups += 1; } if fault() { Err(AErr) } else { Ok(()) } }
     fn rx_continuous(&mut self, _rx_buf: &mut [u8]) -> Result<(usize, radio::RxQuality), AErr> { Err(AErr) }
     fn rx_single(&mut self, _buf: &mut [u8]) -> Result<radio::RxStatus, AErr> {
         log(3, 0);
         if fault() { return Err(AErr); }
-        if unsafe { CL.stray } && tape::stub_bool() { Ok(radio::RxStatus::Rx((tape::stub_u8() % 32) as usize, radio::RxQuality::new(0, 0))) } else { Ok(radio::RxStatus::RxTimeout) }
+        if unsafe { CL.stray } && tape::stub_bool() {
+            // the radio writes the packet to the front of the buffer it was given and reports its length and quality
+            let n = (tape::stub_u8() % 32) as usize; let b0 = tape::stub_u8(); let snr = tape::stub_u8() as i8;
+            if n > 0 && n <= _buf.len() { _buf[0] = b0; }
+            unsafe { let k = CL.rx_n; if k < 4 { CL.rx_len[k] = n; CL.rx_b0[k] = b0; CL.rx_snr[k] = snr; CL.rx_window[k] = CL.setups; } CL.rx_n += 1; }
+            Ok(radio::RxStatus::Rx(n, radio::RxQuality::new(0, snr)))
+        } else { Ok(radio::RxStatus::RxTimeout) }
     }
     fn low_power(&mut self) -> Result<(), AErr> { log(4, 0); if fault() { Err(AErr) } else { Ok(()) } }
 }
@@ -90,7 +99,7 @@ fn rx_downlink_timing(stray: bool) {
     let join = tape::boolean();
     let frame = if join { Frame::Join } else { Frame::Data };
     let wd = tape::stub_u8() as u32;     // time on air reported by the radio
-    let w = mac::RxWindows { rx1: RfConfig { frequency: 1, bb: lora_modulation::BaseBandModulationParams::new(lora_modulation::SpreadingFactor::_7, lora_modulation::Bandwidth::_125KHz, lora_modulation::CodingRate::_4_5), max_payload_len: 59 }, rx2: RfConfig { frequency: 2, bb: lora_modulation::BaseBandModulationParams::new(lora_modulation::SpreadingFactor::_7, lora_modulation::Bandwidth::_125KHz, lora_modulation::CodingRate::_4_5), max_payload_len: 59 } };
+    let w = mac::RxWindows { rx1: RfConfig { frequency: 1, bb: lora_modulation::BaseBandModulationParams::new(lora_modulation::SpreadingFactor::_7, lora_modulation::Bandwidth::_125KHz, lora_modulation::CodingRate::_4_5), max_payload_len: 59 }, rx2: RfConfig { frequency: 2, bb: lora_modulation::BaseBandModulationParams::new(lora_modulation::SpreadingFactor::_7, lora_modulation::Bandwidth::_125KHz, lora_modulation::CodingRate::_4_5), max_payload_len: 51 } };
     let d1 = d.mac.get_rx_delay(&frame, &Window::_1);
     let d2 = d.mac.get_rx_delay(&frame, &Window::_2);
     let buffer = d.radio.buffer as u64;
@@ -107,6 +116,17 @@ fn rx_downlink_timing(stray: bool) {
         assert!(cl.kind[5] == 4 && cl.kind[6] == 5 && cl.arg[6] == (d2 + wd - lead) as u64 && d2 == d1 + 1000, "C10 RX2 armed one second after RX1, adjusted by the same declared lead time and nothing else");
         assert!(cl.kind[7] == 2 && cl.arg[7] == (2 | buffer << 32) && cl.kind[8] == 3 && cl.kind[9] == 4, "C10 RX2 uses the RX2 window bound at TX time");
         assert!(ml.rx2_complete == 1, "C06 the procedure ends with rx2_complete");
+    }
+    // C18 / C05 / C10: every frame the radio delivered went to the MAC as delivered (length, bytes, SNR), together with the RF
+    // configuration of the window it arrived in (RX1: frequency 1 / max 59, RX2: frequency 2 / max 51 in this harness)
+    assert!(ml.handle_rx as usize == cl.rx_n, "C18 every received frame is handed to the MAC, once");
+    let mut k = 0;
+    while k < 4 {
+        if k < cl.rx_n {
+            assert!(ml.rx_len[k] == cl.rx_len[k] && (cl.rx_len[k] == 0 || ml.rx_b0[k] == cl.rx_b0[k]) && ml.rx_snr[k] == cl.rx_snr[k], "C18 the MAC is handed exactly the bytes (and quality) the radio reported");
+            assert!(ml.rx_rf_freq[k] == cl.rx_window[k] as u32 && ml.rx_rf_maxlen[k] == (if cl.rx_window[k] == 1 { 59 } else { 51 }), "C05/C10 a frame is judged by the parameters of the window it was received in (RX1 vs RX2 maximum size)");
+        }
+        k += 1;
     }
     kani::cover!(ml.handle_rx > 0 && ml.resp == 0, "verif-maybe: stray frame seen");
     kani::cover!(ml.handle_rx == 0, "verif-reached: pure time-out run");
@@ -128,7 +148,7 @@ fn c06_async_send_no_faults() { send_contract(false) }
 #[kani::stub(crate::mac::Mac::rx2_complete, stub_mac_rx2_complete)]
 #[kani::unwind(66)]
 fn c06_async_send_kf1_witness() { send_contract(true) }
-// @verif props=C10,C07,C06 obligation=async_device::Device::rx_downlink.programme[time-outs] label=proved-complete tier=quick bound="sequential executions (Y1), both windows time out; any RX delay 1..15 s, lead time 0..199 ms, listen buffer 0..lead time (independent)"
+// @verif props=C10,C07,C06,C05 obligation=async_device::Device::rx_downlink.programme[time-outs] label=proved-complete tier=quick bound="sequential executions (Y1), both windows time out; any RX delay 1..15 s, lead time 0..199 ms, listen buffer 0..lead time (independent)"
 #[kani::proof]
 #[kani::stub(crate::mac::Mac::send, stub_mac_send)]
 #[kani::stub(crate::mac::Mac::join_otaa, stub_mac_join)]
@@ -136,7 +156,7 @@ fn c06_async_send_kf1_witness() { send_contract(true) }
 #[kani::stub(crate::mac::Mac::rx2_complete, stub_mac_rx2_complete)]
 #[kani::unwind(66)]
 fn c10_async_rx_downlink_timeouts() { rx_downlink_timing(false) }
-// @verif props=C10,C07,C06 obligation=async_device::Device::rx_downlink.programme[stray frames] label=proved-complete tier=quick bound="sequential executions (Y1), any mix of stray frames and time-outs in RX1/RX2"
+// @verif props=C10,C07,C06,C05,C18 obligation=async_device::Device::rx_downlink.programme[stray frames] label=proved-complete tier=quick bound="sequential executions (Y1), any mix of stray frames and time-outs in RX1/RX2"
 #[kani::proof]
 #[kani::stub(crate::mac::Mac::send, stub_mac_send)]
 #[kani::stub(crate::mac::Mac::join_otaa, stub_mac_join)]
